@@ -16,7 +16,7 @@
    spelled text to exactly the HTML written from the tree.  The property's full grammar is
    decided on the implementation by the generator oracle, the model tied to it by X-doc. *)
 From Coq Require Import ZArith List Bool.
-From Mistletoe Require Import Base.Sx Base.PyStr Gen.GenConfig Model.Block Model.HtmlRenderer Model.Parser Spec.Spell Proofs.SpellLaw Proofs.SpellP
+From Mistletoe Require Import Base.Sx Base.PyStr Gen.GenConfig Model.Tree Model.CoreTokens Model.Block Model.Build Proofs.PlainProse Model.HtmlRenderer Model.Parser Spec.Spell Proofs.SpellLaw Proofs.SpellP
      Proofs.ListLaw Spec.Fragment Proofs.FragmentP.
 Import ListNotations.
 Local Open Scope Z_scope.
@@ -51,3 +51,11 @@ Theorem C03_fragment_hypotheses :
    text_of (spell t1) = [ $"-  ab" ++ [10]; [10]; $"   > cd" ++ [10]; $"   > " ++ [10]; $"   > 12) e" ++ [10]; [10]; $"   f" ++ [10] ]).
 Proof. split; [exact fragment_configs|exact fragment_instance]. Qed.
 Print Assumptions C03_fragment_hypotheses.
+
+(* ... and through the inline phase: the token tree of the spelled text is the tree it was written from
+   (tok_of: paragraphs holding their line as raw text, quotes, single-item lists with the marker's attributes) *)
+Theorem C03_fragment_token_tree : forall types span_types keep fn t f ln st,
+  fragment_config types = true -> forallb kind_quiet (removelast span_types) = true -> wf_b t = true -> (depth t <= f)%nat ->
+  make_tokens span_types keep fn (fst (fst (tokenize_block types (S f) (text_of (spell t)) ln st))) = [tok_of t].
+Proof. exact fragment_token_tree. Qed.
+Print Assumptions C03_fragment_token_tree.
